@@ -42,7 +42,7 @@ def gen_k50(rng, n, nconst=3, downward=True, nested=0.2, fresh_only=False):
                 bound = rng.randrange(k)       # every quantifier object binds exactly one variable
                 free = [p for p in range(k) if p != bound]
             w = rng.choice([OPEN, OPEN, AXIOM])
-            qobjs.append([kd, op, free, 1 if rng.random() < 0.2 else 0, w, ovars])
+            qobjs.append([kd, op, free, rng.choice([1, 1, 0, 0, 0, 0, 0, 0, 2, 2]), w, ovars])
             qvars.append([ovars[p] for p in free])
         if not qobjs:
             continue
@@ -50,13 +50,26 @@ def gen_k50(rng, n, nconst=3, downward=True, nested=0.2, fresh_only=False):
             # a quantifier over the first quantifier, binding one of its free variables
             fv = list(qvars[0])
             bound = rng.randrange(len(fv))
-            qobjs.append([rng.choice([0, 1]), nb, [p for p in range(len(fv)) if p != bound], 0, rng.choice([OPEN, AXIOM]), fv])
+            okd = rng.choice([0, 1])
+            if rng.random() < 0.5:
+                # explicit nest of the same kind whose inner quantifier is declared fully grounded: the outer one stays open-world
+                okd = qobjs[0][0]
+                qobjs[0][3] = 1
+            qobjs.append([okd, nb, [p for p in range(len(fv)) if p != bound], 0, rng.choice([OPEN, AXIOM]), fv])
         data = []
+        # polar tables (all facts near TRUE / near FALSE) are the ones on which the bound a quantifier must NOT touch would move
+        polar = rng.choice([None, None, None, 1, 0])
+
+        def fact():
+            if polar is None:
+                return gen_fol.rnd_fact(rng, 0.5)
+            b = rng.choice([[F(1), F(1)], [F(1), F(1)], [F(7, 8), F(1)], [F(3, 4), F(7, 8)]])
+            return b if polar else [1 - b[1], 1 - b[0]]
         for i, o in enumerate(kb):
             if o[0] == 0:
                 d = {}
                 for _k in range(rng.choice([1, 2, 3, 4, 5])):
-                    d[tuple(gen_fol.rnd_gnd(rng, o[3], nconst))] = gen_fol.rnd_fact(rng, 0.5)
+                    d[tuple(gen_fol.rnd_gnd(rng, o[3], nconst))] = fact()
                 data.append([i, [[list(g), b] for g, b in d.items()]])
         ops = []
         nonleaf = [i for i, o in enumerate(kb) if o[0] != 0]
@@ -83,5 +96,5 @@ def gen_k50(rng, n, nconst=3, downward=True, nested=0.2, fresh_only=False):
                         ops.append([1, j])
                     ops.append([20, qi])
         out.append([50, kb, roots, worlds, data, qobjs, ops])
-        meta.append({"nq": len(qobjs), "partial": any(q[2] for q in qobjs), "nested": any(q[1] >= nb for q in qobjs), "full": any(q[3] for q in qobjs)})
+        meta.append({"nq": len(qobjs), "partial": any(q[2] for q in qobjs), "nested": any(q[1] >= nb for q in qobjs), "full": any(q[3] == 1 for q in qobjs)})
     return out, meta
